@@ -252,11 +252,16 @@ class Scenario:
         # The twin excludes the part of the input space the known finding lives in (and must be unsat as well).
         twins = []
         if self.kind == "timeout":
+            # known finding F6: the resuming call re-indexes every stored tuple into the indices that were still
+            # in the program value when the deadline struck, i.e. all but the ones the interrupted stratum had
+            # taken out (those are dropped and rebuilt).  It needs an index of a count/sum/mean-aggregated
+            # relation that stayed behind.  The twin keeps only interruptions inside strata that own all of them.
+            safe = self.strata_owning_all_aggregated_indices(prog)
             later = OrL([And_(reach, dvar) for i, (dvar, reach, _c) in enumerate(ctx.deadline_info)
-                         if (ctx.deadline_scc.get(i) or 0) > 0])
+                         if ctx.deadline_scc.get(i) not in safe])
             for q in qs:
                 if q.kind == "mismatch":
-                    twins.append(Query(q.name + "|every_interruption_inside_the_first_stratum", And_(q.cond, Not_(later)), q.kind, q.label))
+                    twins.append(Query(q.name + "|no_aggregated_index_outlives_an_interruption", And_(q.cond, Not_(later)), q.kind, q.label))
         if self.dup:
             agg_rels = set()
             for _h, b in L.core_rules(prog):
@@ -296,6 +301,24 @@ class Scenario:
                 if eval_b(dvar, asg):
                     return n
         return 0
+
+    def aggregated_index_fields(self, prog):
+        """index fields (of the program value) of relations read by a multiplicity-sensitive aggregate"""
+        rels = set()
+        for _h, b in L.core_rules(prog):
+            for it in b:
+                if isinstance(it, L.Agg) and it.agg in ("count", "sum", "mean", "wsum"):
+                    rels.add(it.rel)
+        fields = set()
+        for taken in self.ex.ctx.scc_taken.values():
+            for f in taken:
+                if any(f.startswith(r + "_indices_") for r in rels):
+                    fields.add(f)
+        return fields
+
+    def strata_owning_all_aggregated_indices(self, prog):
+        fields = self.aggregated_index_fields(prog)
+        return {s for s, taken in self.ex.ctx.scc_taken.items() if fields <= taken}
 
     def interrupted_sccs(self, asg):
         """stratum number of the deadline check that fired in each run_timeout call (None = the call completed)"""
